@@ -84,22 +84,36 @@ def run_case(rep, args, case, rng):
     n = 2
     base = os.path.join(target_dir(), "e2e", "cluster.%d.%d" % (args.shard, os.getpid()), "case%d" % case)
     os.makedirs(base, exist_ok=True)
-    ports, gports = [], []
-    for i in range(n):
-        p = alloc_ports(args.shard, 3)
-        ports.append(p)
-        gports.append(p + 2)
     servers = []
     wit = dict(case=case, seed=args.seed, shard=args.shard, nodes=n, log=[])
     rep.count("cases")
     try:
-        for i in range(n):
-            s, ok = start_node(i, ports, gports, base)
-            servers.append(s)
-            if not ok:
-                tail = open(os.path.join(base, "n%d.log" % i), "rb").read()[-400:]
-                rep.inconclusive("case %d: node %d did not come up: %r" % (case, i, tail))
+        # a start that loses a port race (the port range overlaps the kernel's ephemeral range, so any client connection on
+        # the machine may sit on a port for a moment) is repeated on fresh ports and is never a verdict
+        for attempt in range(5):
+            ports, gports = [], []
+            for i in range(n):
+                p = alloc_ports(args.shard, 3)
+                ports.append(p)
+                gports.append(p + 2)
+            servers, lost_race, failed = [], False, None
+            for i in range(n):
+                s, ok = start_node(i, ports, gports, base)
+                servers.append(s)
+                if not ok:
+                    tail = open(os.path.join(base, "n%d.log" % i), "rb").read()[-400:]
+                    lost_race = b"AddrInUse" in tail or b"Address already in use" in tail
+                    failed = (i, tail)
+                    break
+            if failed is None:
+                break
+            for s in servers:
+                s.kill9()
+            if not lost_race or attempt == 4:
+                rep.inconclusive("case %d: node %d did not come up: %r" % (case, failed[0], failed[1]))
+                servers = []
                 return
+            rep.count("starts_repeated_after_a_lost_port_race")
         clients = [Client(ports[i], timeout=10.0) for i in range(n)]
         victim = rng.randrange(n)
         for phase, sub in ((1, 0), (2, 0), (2, 1)):
@@ -112,6 +126,15 @@ def run_case(rep, args, case, rng):
                 clients[victim].close()
                 servers[victim].kill9()
                 servers[victim], ok = start_node(victim, ports, gports, base)
+                for _ in range(6):
+                    if ok or b"ddr" not in open(os.path.join(base, "n%d.log" % victim), "rb").read()[-400:]:
+                        break
+                    # the restarted node has to come back on its own address: a port that some client connection is sitting on
+                    # is tried again a moment later
+                    rep.count("restarts_repeated_after_a_lost_port_race")
+                    servers[victim].kill9()
+                    time.sleep(0.5)
+                    servers[victim], ok = start_node(victim, ports, gports, base)
                 if not ok:
                     rep.inconclusive("case %d: restarted node did not come up" % case)
                     return
